@@ -372,7 +372,14 @@ enum MCfg {
     Suffix(bool, String),
     /// only in the item / bytes lines (the model of the older lines has it as an opaque stage)
     JsonDecode(bool),
+    /// SpellingCorruption(part, PW[pw], allow_full_delete, Artificial(PC[pc], 2.0, None)): (target?, full_delete, pw, pc);
+    /// only in the item / bytes lines; on the wire (14 id), id = 2 + part + 2 fd + 4 pw + 32 pc (Pipeline_Spell.v)
+    Spell(bool, bool, u8, u8),
 }
+
+/// the probability menus of Pipeline_Spell.v (the same binary64 values)
+const SPELL_PW: [f64; 8] = [1.0, 0.5, 0.25, 0.75, 0.9, 0.3, 0.1, 0.6];
+const SPELL_PC: [f64; 8] = [0.0, 1.0, 0.5, 0.25, 0.3, 0.1, 0.75, 0.9];
 
 /// f64 on the wire: (0 m e) = m * 2^e canonical (-0.0 is sent as zero), (1 0 0) +inf, (2 0 0) NaN, (3 0 0) negative
 fn f64_val(x: f64) -> Val {
@@ -477,13 +484,17 @@ impl MCfg {
             MCfg::Prefix(p, s) => t(12, vec![Val::b(*p), Val::str(s)]),
             MCfg::Suffix(p, s) => t(13, vec![Val::b(*p), Val::str(s)]),
             MCfg::JsonDecode(p) => t(14, vec![Val::b(*p)]),
+            MCfg::Spell(p, fd, pw, pc) => {
+                t(14, vec![Val::u(2 + *p as usize + 2 * (*fd as usize) + 4 * (*pw as usize) + 32 * (*pc as usize))])
+            }
         }
     }
 
+    /// a stage that only the item / bytes lines interpret
     fn has_json(&self) -> bool {
         match self {
             MCfg::Chain(l) | MCfg::Switch(l, _) => l.iter().any(|c| c.has_json()),
-            MCfg::JsonDecode(_) => true,
+            MCfg::JsonDecode(_) | MCfg::Spell(..) => true,
             _ => false,
         }
     }
@@ -530,7 +541,17 @@ impl MCfg {
             (11, 2) => MCfg::Mark(a(0)?.to_string_lossy()?, a(1)?.to_string_lossy()?),
             (12, 2) => MCfg::Prefix(a(0)?.as_bool()?, a(1)?.to_string_lossy()?),
             (13, 2) => MCfg::Suffix(a(0)?.as_bool()?, a(1)?.to_string_lossy()?),
-            (14, 1) => MCfg::JsonDecode(a(0)?.as_bool()?),
+            (14, 1) => {
+                let id = a(0)?.as_usize()?;
+                match id {
+                    0 | 1 => MCfg::JsonDecode(id == 1),
+                    2..=257 => {
+                        let k = id - 2;
+                        MCfg::Spell(k % 2 == 1, (k / 2) % 2 == 1, ((k / 4) % 8) as u8, ((k / 32) % 8) as u8)
+                    }
+                    _ => return None,
+                }
+            }
             _ => return None,
         })
     }
@@ -553,6 +574,12 @@ impl MCfg {
             MCfg::Prefix(p, s) => P::Prefix(part_of(*p), s.clone()),
             MCfg::Suffix(p, s) => P::Suffix(part_of(*p), s.clone()),
             MCfg::JsonDecode(p) => P::JsonDecode(part_of(*p)),
+            MCfg::Spell(p, fd, pw, pc) => P::SpellingCorruption(
+                part_of(*p),
+                SPELL_PW[*pw as usize],
+                *fd,
+                SpellingCorruptionMode::Artificial(SPELL_PC[*pc as usize], 2.0, None),
+            ),
         }
     }
 
@@ -586,6 +613,7 @@ impl MCfg {
             MCfg::Prefix(..) => "prefix",
             MCfg::Suffix(..) => "suffix",
             MCfg::JsonDecode(..) => "jsondecode",
+            MCfg::Spell(..) => "spell",
         };
         if !out.contains(&n) {
             out.push(n);
@@ -1771,8 +1799,8 @@ fn gen_task(rng: &mut Rng) -> TaskSpec {
             let n = rng.range(2, 4);
             let mut cl: Vec<String> = (0..n).map(|i| CLASSES[i].to_string()).collect();
             // the Rust constructor does not refuse a class listed twice: the later index wins
-            if rng.chance(1, 6) {
-                cl.push("pos".to_string());
+            if rng.chance(1, 3) {
+                cl.push(rng.pick(&["pos", "neg"]).to_string());
             }
             TaskSpec::Class(gen_tok(rng), rng.chance(1, 2), cl)
         }
@@ -1802,7 +1830,8 @@ fn gen_qcfg(rng: &mut Rng, depth: usize, safe: bool) -> QCfg {
         }
         2 | 3 => {
             let n = rng.below(3);
-            QCfg::OnMark(rng.pick(&["k", "m", "z"]).to_string(), rng.pick(&["v", "w", "old"]).to_string(), sub(rng, n))
+            // values with prefix relations and the empty value: equality, not a prefix test
+            QCfg::OnMark(rng.pick(&["k", "k", "m", "z"]).to_string(), rng.pick(&["v", "w", "o", "", "vv"]).to_string(), sub(rng, n))
         }
         _ => {
             // the preprocessing of the safe family sets k = v or k = w
@@ -1868,13 +1897,25 @@ fn gen_pre_cfg(rng: &mut Rng, task: &TaskSpec, mark: bool) -> MCfg {
             _ => safe_cfg(gen_cfg(rng, 2), 24),
         },
     };
+    let base = if rng.chance(1, 5) {
+        // spelling corruption (the mode without files), alone or next to the whitespace corruption
+        let sp = MCfg::Spell(rng.chance(1, 4), rng.chance(1, 2), rng.below(8) as u8, rng.below(8) as u8);
+        match rng.below(3) {
+            0 => sp,
+            1 => MCfg::Chain(vec![base, sp]),
+            _ => MCfg::Switch(vec![sp, base], vec![0.5, 0.5]),
+        }
+    } else {
+        base
+    };
     if !mark {
         return base;
     }
-    // sets the mark k to v or w, chosen from the item's seed
+    // sets the mark k to v or w, chosen from the item's seed; m to a value that has another one as a prefix
     MCfg::Chain(vec![
         base,
         MCfg::Switch(vec![MCfg::Mark("k".into(), "v".into()), MCfg::Mark("k".into(), "w".into())], vec![0.5, 0.5]),
+        MCfg::Mark("m".into(), rng.pick(&["vv", "old", "w", ""]).to_string()),
     ])
 }
 
@@ -1918,8 +1959,8 @@ fn item_gen(rng: &mut Rng) -> Val {
     }
     let seed = if rng.chance(1, 6) { rng.next_u64() } else { rng.below(5000) as u64 };
     let mut marks = HashMap::new();
-    if rng.chance(1, 3) {
-        marks.insert("k".to_string(), rng.pick(&["old", "v", "w", "x"]).to_string());
+    if rng.chance(1, 2) {
+        marks.insert("k".to_string(), rng.pick(&["old", "v", "w", "vv", "", "wv"]).to_string());
     }
     if rng.chance(1, 10) {
         marks.insert("z".to_string(), "v".to_string());
@@ -2228,7 +2269,12 @@ fn bytes_gen(rng: &mut Rng) -> Val {
                         i.push('\u{e000}');
                     }
                     if json_in && !rng.chance(1, 6) {
-                        i = serde_json::to_string(&i).unwrap();
+                        i = if rng.chance(1, 8) {
+                            // json, but no string: JsonDecode refuses it
+                            rng.pick(&["12", "null", "[\"a\"]", "{\"a\": 1}", "true", " \"a\" \"b\""]).to_string()
+                        } else {
+                            serde_json::to_string(&i).unwrap()
+                        };
                     }
                     Some((i, t))
                 })
